@@ -47,6 +47,6 @@ m = {"version": 1, "setup_cmd": "/verif/scripts/setup.sh",
                  {"name": "hcl", "path": "harness/hcl", "serves_properties": [c for c in claimed if c > "C12"], "kind_free_text": "Rust harness for CL03 (feature cl03 through the GMP shim): tapes, oracles, line protocol"}],
      "checks": [chk(p) for p in claimed],
      "not_applicable": [{"property_id": p["id"], "reason": "check under construction (CL03 model and harness are being built); not yet claimed"} for p in props if p["id"] not in claimed],
-     "notes": "See DESIGN.md. known_findings.json lists fixed defects (F1-F14) and any known finding; theorems.json is the registry of property theorems audited per check."}
+     "notes": "See DESIGN.md. known_findings.json lists fixed defects (F1-F15) and any known finding; theorems.json is the registry of property theorems audited per check."}
 json.dump(m, open("/verif/MANIFEST.json", "w"), indent=1)
 print("claimed", claimed)
